@@ -44,7 +44,7 @@ func gridInstant(r *Rng, T int64, k int) (int64, string) {
 }
 
 func genTimedScenario(r *Rng, v6 bool) (cScenario, []string) {
-	sc := cScenario{v6: v6}
+	sc := cScenario{v6: v6, werr: -1}
 	sc.T = timedTs[r.Intn(len(timedTs))]
 	sc.n = r.Range(-1, 6)
 	sc.cap = r.Range(0, 5)
@@ -204,6 +204,16 @@ func genTimedScenario(r *Rng, v6 bool) (cScenario, []string) {
 		}
 		tags = append(tags, "reply-during-write", fmt.Sprintf("reply-during-write-try=%d", k))
 	}
+	// a transient I/O error of one WriteTo while the client is open
+	if r.Chance(1, 8) {
+		sc.werr = r.Range(0, kmax+1)
+		tags = append(tags, "write-error", fmt.Sprintf("write-error-try=%d", sc.werr))
+		for i := range sc.evs { // a peer cannot answer a datagram that never left
+			if sc.evs[i].hook && sc.evs[i].t == schedAt(sc.T, sc.werr) {
+				sc.werr = -1
+			}
+		}
+	}
 	hasCdl := false
 	for _, e := range sc.evs {
 		hasCdl = hasCdl || e.kind == "cdl"
@@ -272,8 +282,13 @@ func enumTimed(v6 bool) func(emit func(string)) {
 				if n < 0 {
 					E = 4
 				}
-				sc := cScenario{v6: v6, T: T, n: n, cap: 5, H: schedAt(T, E) + T}
+				sc := cScenario{v6: v6, T: T, n: n, cap: 5, H: schedAt(T, E) + T, werr: -1}
 				emit(sc.line())
+				for k := 0; k <= E; k++ {
+					sc2 := sc
+					sc2.werr = k
+					emit(sc2.line())
+				}
 				for k := 0; k < E; k++ {
 					for _, kind := range []string{"acc", "rej"} {
 						sc2 := sc
